@@ -346,6 +346,7 @@ class Check:
     def evidence(self, specs, executed, violations, harness, det, wall, new_lines, known_lines):
         prop = self.prop
         faults, probes = Counter(), Counter()
+        sched = Counter()
         vtime = 0.0
         steps = 0
         traces = set()
@@ -361,6 +362,11 @@ class Check:
                 probes[k] += n
             vtime += r.get("vtime", 0.0)
             steps += r.get("steps", 0)
+            sc = r.get("sched") or {}
+            sched["runs_with_more_than_one_thread"] += 1 if sc.get("threads", 1) > 1 else 0
+            sched["thread_switches"] += sc.get("switches", 0)
+            sched["scheduling_decisions"] += sc.get("decisions", 0)
+            sched["decisions_taken_from_spec"] += sc.get("plan_used", 0)
             tr, nt = abstract_trace(s, r)
             traces.add(tr)
             if nt:
@@ -385,6 +391,8 @@ class Check:
             "simulated_seconds": round(vtime, 3),
             "sut_steps": steps,
             "fault_counts": dict(sorted(faults.items())),
+            "scheduler": dict(sched, note="the unchanged SUT is one sequential thread: the scheduler then only moves virtual time; "
+                                          "thread hand-over is exercised by ./check selftest on threaded trees"),
             "probes": dict(sorted(probes.items())),
             "probes_at_zero": [p for p in EXPECTED_PROBES[prop] if not probes.get(p) and not faults.get(p)],
             "references_computed": self.refs.computed,
